@@ -1075,6 +1075,10 @@ func (c *fn) exprForVar(o types.Object, e ast.Expr) cx {
 	if c.asValue[o] {
 		return c.pointee(e)
 	}
+	if c.msgOnlyVar(o) {
+		// a string that only ever becomes (part of) an error message or a log line: it holds the format
+		return c.msgOf(e)
+	}
 	r := c.exprAs(e, o.Type())
 	if c.opts != nil && c.g.kind(o.Type(), c.sub) == kError {
 		for _, n := range c.opts.LocalErrorIdentity {
@@ -1235,6 +1239,141 @@ func (c *fn) syncLink(o types.Object, k kont) kont {
 	}
 }
 
+// msgOnlyVar: o is a local string variable whose every value is a fmt.Sprintf call or a constant and
+// whose every use is a message position: an argument of a dropped (logging) call, of errors.New, of
+// fmt.Errorf, or the Msg field of an error struct literal. Such a variable holds the FORMAT of the
+// message (the convention for message texts); it is never compared, measured, concatenated or returned.
+func (c *fn) msgOnlyVar(o types.Object) bool {
+	if o == nil || c.decl == nil || !c.isLocal(o) {
+		return false
+	}
+	if c.msgOnly == nil {
+		c.msgOnly = map[types.Object]bool{}
+	}
+	if r, ok := c.msgOnly[o]; ok {
+		return r
+	}
+	c.msgOnly[o] = false
+	if b, ok := o.Type().Underlying().(*types.Basic); !ok || b.Info()&types.IsString == 0 {
+		return false
+	}
+	if v, ok := o.(*types.Var); !ok || v.IsField() {
+		return false
+	}
+	for i := 0; i < c.sig.Params().Len(); i++ {
+		if types.Object(c.paramOf(c.sig.Params().At(i))) == o {
+			return false
+		}
+	}
+	for i := 0; i < c.sig.Results().Len(); i++ {
+		if types.Object(c.sig.Results().At(i)) == o {
+			return false
+		}
+	}
+	okValue := func(e ast.Expr) bool {
+		e = unparen(e)
+		if tv, ok := c.info.Types[e]; ok && tv.Value != nil {
+			return true
+		}
+		if call, ok := e.(*ast.CallExpr); ok {
+			if name, _, _ := c.calleeName(call); name == "fmt.Sprintf" {
+				return true
+			}
+		}
+		return false
+	}
+	good, nSprintf := true, 0
+	var stack []ast.Node
+	ast.Inspect(c.decl.Body, func(n ast.Node) bool {
+		if n == nil {
+			stack = stack[:len(stack)-1]
+			return true
+		}
+		stack = append(stack, n)
+		id, ok := n.(*ast.Ident)
+		if !ok || !good {
+			return good
+		}
+		if obj := c.objOf(id); obj != o {
+			return true
+		}
+		// the closest ancestor that is not a parenthesis
+		pi := len(stack) - 2
+		for pi > 0 {
+			if _, isP := stack[pi].(*ast.ParenExpr); !isP {
+				break
+			}
+			pi--
+		}
+		child := ast.Node(id)
+		if pi+1 < len(stack)-1 {
+			child = stack[pi+1]
+		}
+		switch p := stack[pi].(type) {
+		case *ast.AssignStmt:
+			for i, l := range p.Lhs {
+				if ast.Node(l) == child {
+					if len(p.Lhs) != len(p.Rhs) || (p.Tok != token.DEFINE && p.Tok != token.ASSIGN) || !okValue(p.Rhs[i]) {
+						good = false
+					} else if _, isCall := unparen(p.Rhs[i]).(*ast.CallExpr); isCall {
+						nSprintf++
+					}
+					return true
+				}
+			}
+			good = false
+		case *ast.ValueSpec:
+			for i, nm := range p.Names {
+				if nm == id {
+					if len(p.Values) == 0 {
+						return true
+					}
+					if len(p.Values) != len(p.Names) || !okValue(p.Values[i]) {
+						good = false
+					} else if _, isCall := unparen(p.Values[i]).(*ast.CallExpr); isCall {
+						nSprintf++
+					}
+					return true
+				}
+			}
+			good = false
+		case *ast.CallExpr:
+			if ast.Node(p.Fun) == child {
+				good = false
+				return true
+			}
+			if c.droppableCall(p) {
+				return true
+			}
+			switch name, _, _ := c.calleeName(p); name {
+			case "errors.New", "fmt.Errorf":
+				return true
+			}
+			good = false
+		case *ast.KeyValueExpr:
+			key, isId := p.Key.(*ast.Ident)
+			lit, _ := stack[pi-1].(*ast.CompositeLit)
+			if ast.Node(p.Value) == child && isId && key.Name == "Msg" && lit != nil {
+				if t := c.tyOf(lit); t != nil {
+					if n, isN := resolve(t, c.sub).(*types.Named); isN && implementsError(n) {
+						return true
+					}
+				}
+			}
+			good = false
+		default:
+			good = false
+		}
+		return true
+	})
+	// a variable that never holds a Sprintf result is an ordinary string
+	c.msgOnly[o] = good && nSprintf > 0
+	if c.msgOnly[o] {
+		c.g.note(c.fi.label + ": the string " + o.Name() + " only ever becomes an error message or a log line: it holds the format of the message, not its text")
+	}
+	return c.msgOnly[o]
+}
+
 // lhsType: the type of an lvalue (nil for the blank identifier).
 func (c *fn) lhsType(l ast.Expr) types.Type {
 	if id, ok := unparen(l).(*ast.Ident); ok {
@@ -1275,6 +1414,14 @@ func (c *fn) checkTupleRepr(n ast.Node, call ast.Expr, want func(i int) types.Ty
 			continue
 		}
 		if c.g.typ(from, c.sub) != c.g.typ(wt, c.sub) {
+			if n := c.g.concreteOf(wt, c.sub); n != nil && c.g.kind(wt, c.sub) == kNilable {
+				if p, ok := resolve(from, c.sub).(*types.Pointer); ok && types.Identical(resolve(p.Elem(), c.sub), n) {
+					// a *T result used as the interface that only ever holds *T
+					convs[i] = func(v string) string { return "(PNew " + v + ")" }
+					any = true
+					continue
+				}
+			}
 			if c.g.isOpaqueIface(from, c.sub) && c.g.isOpaqueIface(wt, c.sub) {
 				// an interface value used as a wider / other opaque interface: the same dynamic value
 				from, wt := from, wt
@@ -1558,6 +1705,14 @@ func (c *fn) assignOne(s *ast.AssignStmt, lhs, rhs ast.Expr, k kont) string {
 	if id, ok := unparen(lhs).(*ast.Ident); ok && id.Name == "_" {
 		return c.bind(c.expr(rhs), "u", func(string) string { return k() })
 	}
+	if c.nilableSel(lhs) {
+		val := c.nilableValue(rhs, c.tyOf(lhs))
+		return c.bind(val, "r", func(v string) string {
+			c.storeOpt = true
+			defer func() { c.storeOpt = false }()
+			return c.store(lhs, func(cx) cx { return cx{s: v} }, func() string { c.storeOpt = false; return k() })
+		})
+	}
 	// x = append(x, ...) is the only form of append on an existing slice
 	val := c.rhsFor(lhs, rhs)
 	return c.bind(val, "r", func(v string) string {
@@ -1622,6 +1777,9 @@ func (c *fn) store(lhs ast.Expr, f func(old cx) cx, k kont) string {
 					c.fail(l, "write through a pointer to a non-struct")
 				}
 				fld := c.g.record(n).field(c.g, l.Sel.Name)
+				if fld.nilable && !c.storeOpt {
+					c.fail(l, "only a plain assignment `x.%s = value` is supported on a nilable field", l.Sel.Name)
+				}
 				return c.bind(c.pointee(l.X), "pv", func(v string) string {
 					nv := f(cx{s: "(" + fld.name + " " + v + ")"})
 					return c.bind(nv, "r", func(nvs string) string {
@@ -1648,6 +1806,9 @@ func (c *fn) store(lhs ast.Expr, f func(old cx) cx, k kont) string {
 			rec = c.g.record(n)
 		}
 		fld := rec.field(c.g, l.Sel.Name)
+		if fld.nilable && !c.storeOpt {
+			c.fail(l, "only a plain assignment `x.%s = value` is supported on a nilable field", l.Sel.Name)
+		}
 		return c.store(container, func(oldC cx) cx {
 			oldF := c.lift([]cx{oldC}, func(v []string) string { return "(" + fld.name + " " + v[0] + ")" })
 			nv := f(oldF)
